@@ -17,19 +17,21 @@ package xixi_kv
 //@ pred olderFlushed(db) = forall id :: {db.olderFiles[id]} has(db.olderFiles, id) ==> db.olderFiles[id].ReadWriter.durable == db.olderFiles[id].ReadWriter.size && db.olderFiles[id].kind == datafile.DataFileSuffix && !db.olderFiles[id].closed
 //@ pred olderSep(db) = forall id :: {db.olderFiles[id]} has(db.olderFiles, id) ==> dyn(db.olderFiles[id].ReadWriter) != dyn(db.activeFile.ReadWriter) && arr(db.olderFiles[id].headerBuf) != arr(db.logRecordHeader)
 //@ pred olderOK(db) = olderIds(db) && olderInv(db) && olderFlushed(db) && olderSep(db)
-//@ pred INV_db(db) = db != nil && db.index != nil && db.recordPool != nil && db.activeFile != nil && db.olderFiles != nil && INV_df(db.activeFile) && !db.activeFile.closed && db.activeFile.kind == datafile.DataFileSuffix && len(db.activeFile.bufferedWrites) == 0 && len(db.logRecordHeader) == 21 && arr(db.logRecordHeader) != arr(db.activeFile.headerBuf) && db.bytesWrite <= db.activeFile.ReadWriter.size && db.options.DataFileSize > 0 && (db.options.SyncStrategy == Threshold ==> db.options.BytesPerSync > 0) && olderOK(db)
+//@ pred INV_db(db) = db != nil && db.index != nil && db.recordPool != nil && db.activeFile != nil && db.olderFiles != nil && INV_df(db.activeFile) && !db.activeFile.closed && db.activeFile.kind == datafile.DataFileSuffix && len(db.logRecordHeader) == 21 && arr(db.logRecordHeader) != arr(db.activeFile.headerBuf) && owned(db.logRecordHeader) && owned(db.activeFile.headerBuf) && db.bytesWrite <= db.activeFile.ReadWriter.size && db.options.DataFileSize > 0 && (db.options.SyncStrategy == Threshold ==> db.options.BytesPerSync > 0) && olderOK(db)
 // space accounting: DiskSize - ReclaimableSize is the number of bytes occupied by the live records
 //@ pred ACC(db) = db.totalSize - db.reclaimSize == db.index.live && 0 <= db.reclaimSize && 0 <= db.index.live
 // every indexed position names a file the database holds open, at a valid in-block offset
 //@ pred posOK(db) = forall k :: {db.index.model[k]} db.index.model[k] != 0 ==> as("*datafile.DataPos", db.index.model[k]).Offset < 32768 && (as("*datafile.DataPos", db.index.model[k]).Fid == db.activeFile.ID || has(db.olderFiles, as("*datafile.DataPos", db.index.model[k]).Fid))
 // what a public method may assume on entry: invariant, accounting, no lock held by the caller, no counter near overflow
-//@ pred API(db) = INV_db(db) && ACC(db) && posOK(db) && db.mu != nil && !db.mu.heldW && !db.mu.heldR && db.activeFile.ID < 4294967295 && db.totalSize <= 4611686018427387904 && db.reclaimSize <= 4611686018427387904
+//@ pred API(db) = INV_db(db) && len(db.activeFile.bufferedWrites) == 0 && ACC(db) && posOK(db) && db.mu != nil && !db.mu.heldW && !db.mu.heldR && db.activeFile.ID < 4294967295 && db.totalSize <= 4611686018427387904 && db.reclaimSize <= 4611686018427387904
 
 // sentinel errors of the engine itself (I/O layers never return these)
 //@ pred engineErr(e) = e == xixi_kv.ErrKeyIsEmpty || e == xixi_kv.ErrIndexUpdateFailed || e == xixi_kv.ErrKeyNotFound || e == xixi_kv.ErrDataFileNotFound || e == xixi_kv.ErrDataDirectoryCorrupted || e == xixi_kv.ErrBatchCommitted || e == xixi_kv.ErrDatabaseIsUsing || e == xixi_kv.ErrMergeIsProgress
 
 //@ pool xixi_kv.DB.recordPool *datafile.LogRecord
 //@ poolinv [clean-record] x != nil && x.Key == nil && len(x.Value) == 0 && x.Type == 0 && x.BatchID == 0
+// the value buffer a pooled record keeps for reuse belongs to the engine, never to a caller
+//@ poolinv [owned-value] owned(x.Value)
 
 // ---------------------------------------------------------------------------------------------
 // Append path
@@ -39,7 +41,7 @@ package xixi_kv
 //@   props C01 C13 C17
 //@   requires [locked] db.mu == nil || db.mu.heldW
 //@   requires [id-room] db.activeFile == nil || db.activeFile.ID < 4294967295
-//@   ensures [ok]   result == nil ==> db.activeFile != nil && fresh(db.activeFile) && INV_df(db.activeFile) && !db.activeFile.closed && db.activeFile.kind == datafile.DataFileSuffix && len(db.activeFile.bufferedWrites) == 0 && db.activeFile.ReadWriter.durable == db.activeFile.ReadWriter.size && db.activeFile.ReadWriter.writes == 0 && fresh(db.activeFile.ReadWriter) && fresh(db.activeFile.headerBuf)
+//@   ensures [ok]   result == nil ==> db.activeFile != nil && fresh(db.activeFile) && INV_df(db.activeFile) && !db.activeFile.closed && db.activeFile.kind == datafile.DataFileSuffix && len(db.activeFile.bufferedWrites) == 0 && arr(db.activeFile.bufferedWrites) == 0 && db.activeFile.ReadWriter.durable == db.activeFile.ReadWriter.size && db.activeFile.ReadWriter.writes == 0 && fresh(db.activeFile.ReadWriter) && fresh(db.activeFile.headerBuf)
 //@   ensures [id]   result == nil ==> db.activeFile.ID == (old(db.activeFile) == nil ? 0 : old(db.activeFile.ID) + 1)
 //@   ensures [err]  result != nil ==> db.activeFile == old(db.activeFile)
 //@   ensures [foreign-errors] !engineErr(result)
@@ -49,7 +51,7 @@ package xixi_kv
 //@   props C01 C13 C17 C03
 //@   requires [locked] db.mu == nil || db.mu.heldW
 //@   requires [inv]    INV_db(db) && db.activeFile.ID < 4294967295
-//@   ensures [rotated] result == nil ==> INV_db(db) && fresh(db.activeFile) && db.activeFile.ID == old(db.activeFile.ID) + 1 && db.activeFile.ReadWriter.writes == 0 && fresh(db.activeFile.ReadWriter) && fresh(db.activeFile.headerBuf) && has(db.olderFiles, old(db.activeFile.ID)) && db.olderFiles[old(db.activeFile.ID)] == old(db.activeFile)
+//@   ensures [rotated] result == nil ==> INV_db(db) && fresh(db.activeFile) && db.activeFile.ID == old(db.activeFile.ID) + 1 && db.activeFile.ReadWriter.writes == 0 && len(db.activeFile.bufferedWrites) == 0 && arr(db.activeFile.bufferedWrites) == 0 && fresh(db.activeFile.ReadWriter) && fresh(db.activeFile.headerBuf) && has(db.olderFiles, old(db.activeFile.ID)) && db.olderFiles[old(db.activeFile.ID)] == old(db.activeFile)
 //@   ensures [rotate-flushed] result == nil ==> old(db.activeFile).ReadWriter.durable == old(db.activeFile).ReadWriter.size
 //@   ensures [older-kept] forall id :: {db.olderFiles[id]} id != old(db.activeFile.ID) ==> has(db.olderFiles, id) == old(has(db.olderFiles, id)) && db.olderFiles[id] == old(db.olderFiles[id])
 //@   ensures [counter] result == nil ==> db.bytesWrite == 0
@@ -84,6 +86,7 @@ package xixi_kv
 // ---------------------------------------------------------------------------------------------
 
 //@ func (*xixi_kv.DB).Put
+//@   ownership
 //@   props C01 C08 C09 C13 C15 C17
 //@   requires [api]   API(db)
 //@   requires [sizes] len(key) + len(value) <= 134217728
@@ -101,6 +104,7 @@ package xixi_kv
 //@   modifies db.activeFile, db.olderFiles[*], db.totalSize, db.bytesWrite, db.reclaimSize, db.logRecordHeader[*], db.activeFile.lastBlockID, db.activeFile.lastBlockSize, db.activeFile.headerBuf[*], db.activeFile.ReadWriter.size, db.activeFile.ReadWriter.data, db.activeFile.ReadWriter.writes, db.activeFile.ReadWriter.durable, db.index.model, db.index.count, db.index.live, db.mu.heldW, db.mu.sections
 
 //@ func (*xixi_kv.DB).Delete
+//@   ownership
 //@   props C01 C08 C09 C13 C15 C17
 //@   requires [api]   API(db)
 //@   requires [sizes] len(key) <= 134217728
@@ -131,6 +135,7 @@ package xixi_kv
 //@   modifies db.mu.heldR
 
 //@ func (*xixi_kv.DB).Get
+//@   ownership
 //@   props C01 C08 C09 C12 C15
 //@   requires [api]   API(db)
 //@   ensures [unlocked] !db.mu.heldW && !db.mu.heldR
@@ -156,3 +161,131 @@ package xixi_kv
 //@   ensures [exact]  result != nil && result.KeyNum == db.index.count && result.DataFileNum == len(db.olderFiles) + 1 && result.ReclaimableSize == db.reclaimSize && result.DiskSize == db.totalSize
 //@   ensures [ordered] 0 <= result.ReclaimableSize && result.ReclaimableSize <= result.DiskSize && result.DiskSize - result.ReclaimableSize == db.index.live
 //@   modifies db.mu.heldR
+
+// ---------------------------------------------------------------------------------------------
+// Batches
+// ---------------------------------------------------------------------------------------------
+//@ pred stagedRecs(b) = forall i :: {b.staged[i]} 0 <= i && i < len(b.staged) ==> b.staged[i] != nil && len(b.staged[i].Key) + len(b.staged[i].Value) <= 134217728
+// the hash index over the staged records only holds valid positions of the staged slice
+//@ pred stageIdxOK(b) = forall h, j :: {b.stageIndex[h][j]} has(b.stageIndex, h) && 0 <= j && j < len(b.stageIndex[h]) ==> 0 <= b.stageIndex[h][j] && b.stageIndex[h][j] < len(b.staged)
+// a batch that is not yet finished holds the database lock exclusively (taken by NewBatch)
+// staged keys and values live in engine-owned arrays (copies of what the caller passed)
+//@ pred stagedOwned(b) = forall i :: {b.staged[i]} 0 <= i && i < len(b.staged) ==> owned(b.staged[i].Key) && owned(b.staged[i].Value)
+//@ pred BATCH(b) = stagedOwned(b) && b != nil && b.db != nil && INV_db(b.db) && len(b.db.activeFile.bufferedWrites) == 0 && ACC(b.db) && posOK(b.db) && b.db.mu != nil && !b.db.mu.heldR && b.batchID > 0 && stagedRecs(b) && stageIdxOK(b) && b.db.activeFile.ID < 4294967295 && b.db.totalSize <= 4611686018427387904 && b.db.reclaimSize <= 4611686018427387904 && 0 <= b.cachedDataSize && b.cachedDataSize <= 4611686018427387904
+//@ pred INV_batch(b) = BATCH(b) && (!b.committed ==> b.db.mu.heldW) && !b.mu.heldW && !b.mu.heldR
+
+//@ func (*xixi_kv.DB).NewBatch
+//@   props C04 C05 C09
+//@   panics_ok
+//@   requires [api]  API(db)
+//@   ensures [batch] result != nil && fresh(result) && result.db == db && !result.committed && db.mu.heldW && result.batchID > 0 && len(result.staged) == 0 && result.cachedDataSize == 0 && !result.mu.heldW && !result.mu.heldR
+//@   modifies db.mu.heldW, db.mu.sections
+
+//@ func (*xixi_kv.Batch).findPendingRecord
+//@   props C05
+//@   requires [inv] b != nil && stagedRecs(b) && stageIdxOK(b)
+//@   ensures [match] result != nil ==> keyid(result.Key) == keyid(key) && len(result.Key) == len(key) && len(result.Key) + len(result.Value) <= 134217728
+//@   ensures [member] result != nil ==> (exists i :: 0 <= i && i < len(b.staged) && result == b.staged[i])
+//@   modifies nothing
+
+//@ func (*xixi_kv.Batch).addPendingRecord
+//@   props C05
+//@   content
+//@   requires [inv] b != nil && stagedRecs(b) && stageIdxOK(b)
+//@   requires [rec] record != nil && len(record.Key) + len(record.Value) <= 134217728
+//@   ensures [appended] len(b.staged) == old(len(b.staged)) + 1 && b.staged[len(b.staged) - 1] == record
+//@   ensures [kept]     stagedRecs(b) && stageIdxOK(b)
+//@   ensures [owned]    old(stagedOwned(b)) && owned(record.Key) && owned(record.Value) ==> stagedOwned(b)
+//@   modifies b.staged, b.staged[*], b.stageIndex, b.stageIndex[*], arrays:int
+
+//@ func (*xixi_kv.Batch).flushStaged
+//@   props C04 C05 C13 C17 C03
+//@   content
+//@   requires [inv]    BATCH(b) && b.db.mu.heldW
+//@   ensures [inv]     result == nil ==> INV_db(b.db) && ACC(b.db) && posOK(b.db)
+//@   ensures [flushed] result == nil ==> len(b.staged) == 0 && b.cachedDataSize == 0 && len(b.db.activeFile.bufferedWrites) == 0 && fresh(b.stageIndex) && (forall h :: {indom(b.stageIndex, h)} !indom(b.stageIndex, h)) && arr(b.staged) == old(arr(b.staged))
+//@   ensures [err-keeps-staged] result != nil ==> b.staged == old(b.staged) && b.stageIndex == old(b.stageIndex)
+//@   ensures [active] b.db.activeFile == old(b.db.activeFile) || (fresh(b.db.activeFile) && fresh(b.db.activeFile.ReadWriter) && fresh(b.db.activeFile.headerBuf))
+//@   ensures [locked]  b.db.mu.heldW && b.db == old(b.db) && b.committed == old(b.committed) && b.batchID == old(b.batchID)
+//@   ensures [durable-if-sync] result == nil && b.options.Sync && old(len(b.staged)) > 0 ==> b.db.activeFile.ReadWriter.durable == b.db.activeFile.ReadWriter.size
+//@   ensures [id-room] result == nil ==> b.db.activeFile.ID <= old(b.db.activeFile.ID) + 1
+//@   ensures [foreign-errors] !engineErr(result)
+//@   at (*datafile.DataFile).WriteStagedLogRecord assert [tagged] arg1.BatchID == b.batchID && arg1.BatchID > 0
+//@   at (*datafile.DataFile).FlushStaged assert [fits-or-fresh] arg0 == b.db.activeFile && (b.db.activeFile != old(b.db.activeFile) || arg0.ReadWriter.size == 0 || arg0.ReadWriter.size + b.cachedDataSize + 70 <= b.db.options.DataFileSize || len(b.staged) == 0)
+//@   at (*index.ShardedIndex).Put assert [index-after-write] b.db.activeFile.ReadWriter.writes >= 1
+//@   modifies b.staged, b.stageIndex, b.cachedDataSize, b.staged[*].BatchID, b.staged[*].Key, b.staged[*].Value, b.staged[*].Type, b.db.activeFile, b.db.olderFiles[*], b.db.totalSize, b.db.bytesWrite, b.db.reclaimSize, b.db.logRecordHeader[*], b.db.activeFile.lastBlockID, b.db.activeFile.lastBlockSize, b.db.activeFile.headerBuf[*], b.db.activeFile.bufferedWrites, b.db.activeFile.bufferedWrites[*], b.db.activeFile.ReadWriter.size, b.db.activeFile.ReadWriter.data, b.db.activeFile.ReadWriter.writes, b.db.activeFile.ReadWriter.durable, b.db.index.model, b.db.index.count, b.db.index.live
+//@   loop 1
+//@     invariant [files]  INV_db(b.db) && b.db.mu.heldW && b.db == old(b.db) && b.batchID == old(b.batchID) && b.batchID > 0 && stagedRecs(b) && b.staged == old(b.staged)
+//@     invariant [staged] stagedOK(b.db.activeFile) && len(b.db.activeFile.bufferedWrites) == rangeindex + 1 && 0 - 1 <= rangeindex && rangeindex <= len(b.staged) - 1
+//@     invariant [buf-own] arr(b.db.activeFile.bufferedWrites) == 0 || fresh(b.db.activeFile.bufferedWrites) || (b.db.activeFile == old(b.db.activeFile) && arr(b.db.activeFile.bufferedWrites) == old(arr(b.db.activeFile.bufferedWrites)))
+//@   loop 2
+//@     invariant [inv]    INV_db(b.db) && ACC(b.db) && posOK(b.db) && b.db.mu.heldW && b.db == old(b.db) && b.staged == old(b.staged) && stagedRecs(b) && len(dataPos) == len(b.staged)
+//@     invariant [positions] forall j :: {dataPos[j]} 0 <= j && j < len(dataPos) ==> dataPos[j] != nil && dataPos[j].Fid == b.db.activeFile.ID && dataPos[j].Offset < 32768
+//@     invariant [sizes]  b.db.totalSize <= 4611686018427387904 + (rangeindex + 1) * 4294967296 && b.db.reclaimSize <= 4611686018427387904 + 2 * (rangeindex + 1) * 4294967296 && 0 - 1 <= rangeindex
+
+//@ func (*xixi_kv.Batch).flushStagedAndUpdateFile
+//@   props C04 C05 C17
+//@   requires [inv]    BATCH(b) && b.db.mu.heldW && b.db.activeFile.ID < 4294967294
+//@   ensures [inv]     result == nil ==> INV_db(b.db) && ACC(b.db) && posOK(b.db) && len(b.staged) == 0 && b.cachedDataSize == 0 && len(b.db.activeFile.bufferedWrites) == 0 && stagedRecs(b) && stageIdxOK(b) && stagedOwned(b) && fresh(b.stageIndex) && arr(b.staged) == old(arr(b.staged))
+//@   ensures [err-keeps-staged] result != nil ==> arr(b.staged) == old(arr(b.staged)) && (b.stageIndex == old(b.stageIndex) || fresh(b.stageIndex))
+//@   ensures [locked]  b.db.mu.heldW && b.db == old(b.db) && b.committed == old(b.committed) && b.batchID == old(b.batchID)
+//@   ensures [id-room] result == nil ==> b.db.activeFile.ID <= old(b.db.activeFile.ID) + 2
+//@   ensures [rotated] result == nil ==> fresh(b.db.activeFile) && b.db.activeFile != old(b.db.activeFile)
+//@   modifies b.staged, b.stageIndex, b.cachedDataSize, b.staged[*].BatchID, b.staged[*].Key, b.staged[*].Value, b.staged[*].Type, b.db.activeFile, b.db.olderFiles[*], b.db.totalSize, b.db.bytesWrite, b.db.reclaimSize, b.db.logRecordHeader[*], b.db.activeFile.lastBlockID, b.db.activeFile.lastBlockSize, b.db.activeFile.headerBuf[*], b.db.activeFile.bufferedWrites, b.db.activeFile.bufferedWrites[*], b.db.activeFile.ReadWriter.size, b.db.activeFile.ReadWriter.data, b.db.activeFile.ReadWriter.writes, b.db.activeFile.ReadWriter.durable, b.db.index.model, b.db.index.count, b.db.index.live
+
+//@ func (*xixi_kv.Batch).Put
+//@   ownership
+//@   props C05 C15 C09 C17
+//@   requires [inv]    INV_batch(b) && b.db.activeFile.ID < 4294967294
+//@   requires [sizes]  len(key) + len(value) <= 134217728
+//@   ensures [rejects-reuse] old(b.committed) && len(key) > 0 ==> result == ErrBatchCommitted && len(b.staged) == old(len(b.staged)) && b.db.mu.heldW == old(b.db.mu.heldW)
+//@   ensures [empty-key] len(key) == 0 ==> result == ErrKeyIsEmpty
+//@   ensures [unlocked] !b.mu.heldW && !b.mu.heldR && b.db.mu.heldW == old(b.db.mu.heldW)
+//@   ensures [rewrite-is-put] result == nil && b.db.activeFile == old(b.db.activeFile) && called("(*xixi_kv.Batch).findPendingRecord") && result_of("(*xixi_kv.Batch).findPendingRecord") != nil ==> result_of("(*xixi_kv.Batch).findPendingRecord").Type == datafile.LogRecordNormal
+//@   ensures [value-copied] result == nil && b.db.activeFile == old(b.db.activeFile) && called("(*xixi_kv.Batch).findPendingRecord") && result_of("(*xixi_kv.Batch).findPendingRecord") != nil && len(value) > 0 ==> arr(result_of("(*xixi_kv.Batch).findPendingRecord").Value) != arr(value) && arr(result_of("(*xixi_kv.Batch).findPendingRecord").Key) != arr(key)
+//@   ensures [appended-is-put] result == nil && !old(b.committed) && len(key) > 0 && (b.db.activeFile != old(b.db.activeFile) || result_of("(*xixi_kv.Batch).findPendingRecord") == nil) ==> len(b.staged) > 0 && b.staged[len(b.staged) - 1].Type == datafile.LogRecordNormal && arr(b.staged[len(b.staged) - 1].Key) != arr(key) && (len(value) == 0 || arr(b.staged[len(b.staged) - 1].Value) != arr(value))
+//@   ensures [inv] result == nil ==> stagedRecs(b) && stageIdxOK(b) && stagedOwned(b)
+//@   modifies b.mu.heldW, b.mu.sections, b.staged, b.staged[*], b.stageIndex, b.stageIndex[*], arrays:int, arrays:byte, b.cachedDataSize, b.staged[*].BatchID, b.staged[*].Key, b.staged[*].Value, b.staged[*].Type, b.db.activeFile, b.db.olderFiles[*], b.db.totalSize, b.db.bytesWrite, b.db.reclaimSize, b.db.logRecordHeader[*], b.db.activeFile.lastBlockID, b.db.activeFile.lastBlockSize, b.db.activeFile.headerBuf[*], b.db.activeFile.bufferedWrites, b.db.activeFile.bufferedWrites[*], b.db.activeFile.ReadWriter.size, b.db.activeFile.ReadWriter.data, b.db.activeFile.ReadWriter.writes, b.db.activeFile.ReadWriter.durable, b.db.index.model, b.db.index.count, b.db.index.live
+
+//@ func (*xixi_kv.Batch).Delete
+//@   ownership
+//@   props C05 C15 C09 C17
+//@   requires [inv]    INV_batch(b) && b.db.activeFile.ID < 4294967294
+//@   requires [sizes]  len(key) <= 134217728
+//@   ensures [rejects-reuse] old(b.committed) && len(key) > 0 ==> result == ErrBatchCommitted && len(b.staged) == old(len(b.staged)) && b.db.mu.heldW == old(b.db.mu.heldW)
+//@   ensures [empty-key] len(key) == 0 ==> result == ErrKeyIsEmpty
+//@   ensures [unlocked] !b.mu.heldW && !b.mu.heldR && b.db.mu.heldW == old(b.db.mu.heldW)
+//@   ensures [staged-becomes-tombstone] result == nil && b.db.activeFile == old(b.db.activeFile) && called("(*xixi_kv.Batch).findPendingRecord") && result_of("(*xixi_kv.Batch).findPendingRecord") != nil ==> result_of("(*xixi_kv.Batch).findPendingRecord").Type == datafile.LogRecordDeleted && len(result_of("(*xixi_kv.Batch).findPendingRecord").Value) == 0
+//@   ensures [absent-is-noop] result == nil && !old(b.committed) && len(key) > 0 && called("(*index.ShardedIndex).Get") && result_of("(*index.ShardedIndex).Get") == nil ==> len(b.staged) == old(len(b.staged))
+//@   ensures [cached-size-shrinks] result == nil && called("(*xixi_kv.Batch).findPendingRecord") && result_of("(*xixi_kv.Batch).findPendingRecord") != nil ==> b.cachedDataSize <= old(b.cachedDataSize)
+//@   ensures [inv] result == nil ==> stagedRecs(b) && stageIdxOK(b) && stagedOwned(b)
+//@   modifies b.mu.heldW, b.mu.sections, b.staged, b.staged[*], b.stageIndex, b.stageIndex[*], arrays:int, arrays:byte, b.cachedDataSize, b.staged[*].BatchID, b.staged[*].Key, b.staged[*].Value, b.staged[*].Type, b.db.activeFile, b.db.olderFiles[*], b.db.totalSize, b.db.bytesWrite, b.db.reclaimSize, b.db.logRecordHeader[*], b.db.activeFile.lastBlockID, b.db.activeFile.lastBlockSize, b.db.activeFile.headerBuf[*], b.db.activeFile.bufferedWrites, b.db.activeFile.bufferedWrites[*], b.db.activeFile.ReadWriter.size, b.db.activeFile.ReadWriter.data, b.db.activeFile.ReadWriter.writes, b.db.activeFile.ReadWriter.durable, b.db.index.model, b.db.index.count, b.db.index.live
+
+//@ func (*xixi_kv.Batch).Get
+//@   ownership
+//@   props C05 C15 C09 C01
+//@   requires [inv]    INV_batch(b)
+//@   ensures [rejects-reuse] old(b.committed) && len(key) > 0 ==> result1 == ErrBatchCommitted && result0 == nil
+//@   ensures [empty-key] len(key) == 0 ==> result1 == ErrKeyIsEmpty
+//@   ensures [unlocked] !b.mu.heldW && !b.mu.heldR && b.db.mu.heldW == old(b.db.mu.heldW)
+//@   ensures [staged-deleted] called("(*xixi_kv.Batch).findPendingRecord") && result_of("(*xixi_kv.Batch).findPendingRecord") != nil && result_of("(*xixi_kv.Batch).findPendingRecord").Type == datafile.LogRecordDeleted ==> result1 == ErrKeyNotFound && result0 == nil
+//@   ensures [staged-put] called("(*xixi_kv.Batch).findPendingRecord") && result_of("(*xixi_kv.Batch).findPendingRecord") != nil && result_of("(*xixi_kv.Batch).findPendingRecord").Type != datafile.LogRecordDeleted ==> result1 == nil && len(result0) == len(result_of("(*xixi_kv.Batch).findPendingRecord").Value)
+//@   ensures [private-copy] len(result0) > 0 ==> fresh(result0)
+//@   ensures [absent] !old(b.committed) && len(key) > 0 && called("(*index.ShardedIndex).Get") && result_of("(*index.ShardedIndex).Get") == nil ==> result1 == ErrKeyNotFound
+//@   ensures [resolvable] result1 != ErrDataFileNotFound
+//@   ensures [err-no-value] result1 != nil ==> result0 == nil
+//@   at (*datafile.DataFile).ReadRecordValue assert [right-file] arg0.ID == arg1.Fid && arg1 == result_of("(*index.ShardedIndex).Get")
+//@   modifies b.mu.heldR
+
+//@ func (*xixi_kv.Batch).Commit
+//@   props C04 C05 C09 C13 C02
+//@   requires [inv]    INV_batch(b) && b.db.activeFile.ID < 4294967294
+//@   ensures [rejects-reuse] old(b.committed) ==> result == ErrBatchCommitted && b.db.mu.heldW == old(b.db.mu.heldW) && b.db.activeFile == old(b.db.activeFile) && b.db.activeFile.ReadWriter.size == old(b.db.activeFile.ReadWriter.size)
+//@   ensures [finished] b.committed && !b.mu.heldW && !b.mu.heldR
+//@   ensures [unlock]  !old(b.committed) ==> !b.db.mu.heldW
+//@   ensures [inv]     result == nil && !old(b.committed) ==> INV_db(b.db) && ACC(b.db) && posOK(b.db)
+//@   ensures [durable-if-sync] result == nil && !old(b.committed) && b.options.Sync && old(len(b.staged)) > 0 ==> b.db.activeFile.ReadWriter.durable == b.db.activeFile.ReadWriter.size
+//@   ensures [empty-batch-writes-nothing] !old(b.committed) && old(len(b.staged)) == 0 ==> result == nil && b.db.activeFile == old(b.db.activeFile) && b.db.activeFile.ReadWriter.size == old(b.db.activeFile.ReadWriter.size)
+//@   at (*datafile.DataFile).WriteLogRecord assert [sealed-carries-batch-id] arg1.Type == datafile.LogRecordBatchFinished && arg1.BatchID == b.batchID && arg1.BatchID > 0 && arg0 == b.db.activeFile
+//@   at (*datafile.DataFile).WriteLogRecord assert [seal-after-records] len(b.staged) == 0 && len(b.db.activeFile.bufferedWrites) == 0 && b.db.mu.heldW
+//@   modifies b.committed, b.mu.heldW, b.mu.sections, b.db.mu.heldW, b.staged, b.stageIndex, b.cachedDataSize, b.staged[*].BatchID, b.staged[*].Key, b.staged[*].Value, b.staged[*].Type, b.db.activeFile, b.db.olderFiles[*], b.db.totalSize, b.db.bytesWrite, b.db.reclaimSize, b.db.logRecordHeader[*], b.db.activeFile.lastBlockID, b.db.activeFile.lastBlockSize, b.db.activeFile.headerBuf[*], b.db.activeFile.bufferedWrites, b.db.activeFile.bufferedWrites[*], b.db.activeFile.ReadWriter.size, b.db.activeFile.ReadWriter.data, b.db.activeFile.ReadWriter.writes, b.db.activeFile.ReadWriter.durable, b.db.index.model, b.db.index.count, b.db.index.live
